@@ -19,6 +19,10 @@ CHECKS = {
    "All trees up to a node bound assembled with the public constructors, all trees the parser returns for short token sequences, trees produced by preprocessing and deep chains: stored text/height at every node vs an independent renderer, print->parse round trip.", "§3 C06"),
  "C07": ("exploration", "bounded-exhaustive tree enumeration against an independent scope checker and de-Bruijn normaliser",
    "All parsed trees up to a node bound over variable names that collide with the internal ones in every order, with jumps everywhere: accept iff well-scoped, output exactly the depth-named alpha-variant, idempotent.", "§3 C07"),
+ "C09": ("exploration", "bounded-exhaustive enumeration of sub-trees / formula lists against an independent alpha-equivalence decision and occurrence counter",
+   "Every sub-tree of every preprocessed formula up to a node bound: canonical-form classes must coincide with alpha-equivalence classes (partition check = all pairs, plus explicit pairwise traversal), renaming total/injective/consistent, idempotence; duplicate marking of all single formulae and all lists <= 3 over a pool with jump/domain shapes vs an independent occurrence count. Uses the verif-hooks re-export of the private canonization module.", "§3 C09"),
+ "C12": ("model_checking", "explicit-state reference model checker + differential (shortcut vs pattern-defeating twin) over all small contexts",
+   "Every one-hole context up to a node bound x the two shortcut patterns, logically identical twins that defeat the matcher, and near-miss families, on the core networks and label families: shortcut == twin as sets, everything == explicit-state oracle, inside the unit set.", "§3 C12"),
  "C13": ("model_checking", "explicit-state reference model checker on all formulae containing EW/AW",
    "All formulae up to a node bound that contain EW or AW on the core networks, compared point-wise with the oracle's weak-until definitions.", "§3 C13"),
  "C14": ("exploration", "bounded-exhaustive input enumeration through every string entry point under catch_unwind with a reference accept/reject oracle",
